@@ -1,0 +1,59 @@
+//go:build verif
+
+// Licensed to LinDB under one or more contributor
+// license agreements. See the NOTICE file distributed with
+// this work for additional information regarding copyright
+// ownership. LinDB licenses this file to you under
+// the Apache License, Version 2.0 (the "License"); you may
+// not use this file except in compliance with the License.
+// You may obtain a copy of the License at
+//
+//     http://www.apache.org/licenses/LICENSE-2.0
+//
+// Unless required by applicable law or agreed to in writing,
+// software distributed under the License is distributed on an
+// "AS IS" BASIS, WITHOUT WARRANTIES OR CONDITIONS OF ANY
+// KIND, either express or implied.  See the License for the
+// specific language governing permissions and limitations
+// under the License.
+
+package query
+
+import (
+	"context"
+
+	"github.com/lindb/lindb/models"
+	queryctx "github.com/lindb/lindb/query/context"
+	trackerpkg "github.com/lindb/lindb/query/tracker"
+	stmtpkg "github.com/lindb/lindb/sql/stmt"
+)
+
+// This file only exists with the "verif" build tag (property C17). It gives the external verification
+// harness setters for three function variables this package already keeps "for testing"
+// (newExecutePipelineFn, execFn, metricMetadataSearchFn), so that the real leaf and intermediate task
+// processors can be driven without a storage engine or a network; it changes no behaviour.
+
+// VerifSetNewExecutePipelineFn replaces the pipeline factory used by the task processors (nil restores the default).
+func VerifSetNewExecutePipelineFn(fn func(tracker *trackerpkg.StageTracker, completeCallback func(err error)) Pipeline) {
+	if fn == nil {
+		fn = NewExecutePipeline
+	}
+	newExecutePipelineFn = fn
+}
+
+// VerifSetExecFn replaces the search executor used by the intermediate task processor (nil restores the default).
+func VerifSetExecFn(fn func(ctx queryctx.TaskContext, req *models.Request, mgr *SearchMgr) (any, error)) {
+	if fn == nil {
+		fn = exec
+	}
+	execFn = fn
+}
+
+// VerifSetMetricMetadataSearchFn replaces the metadata search used by the intermediate task processor (nil restores the default).
+func VerifSetMetricMetadataSearchFn(fn func(ctx context.Context, param *models.ExecuteParam,
+	statement *stmtpkg.MetricMetadata, mgr *SearchMgr) (any, error)) {
+	if fn == nil {
+		fn = MetricMetadataSearch
+	}
+	metricMetadataSearchFn = fn
+}
